@@ -164,9 +164,46 @@ def prop_planner(case, ctx):
     ctx.nontrivial(arr.k >= 2 and arr.m >= 2 and len(sl) >= 2 and any((b > 0).sum() >= 2 for b in beliefs))
 
 
+@st.composite
+def reuse_cases(draw, tier="quick"):
+    a = draw(pomdp_specs(max_states=3, max_actions=2, max_obs=2, gammas=[0.3, 0.5, 0.8]))
+    b = draw(pomdp_specs(max_states=3, max_actions=2, max_obs=2, gammas=[0.3, 0.5, 0.8], reward_lo=-6, reward_hi=6))
+    return {"a": a, "b": b, "eps": draw(st.sampled_from([1e-2, 1e-3])), "horizon": draw(st.sampled_from([None, None, 2])),
+            "algo": draw(st.sampled_from(["pbvi", "pbvi", "qmdp"]))}
+
+
+def prop_reuse(case, ctx):
+    """a planner object reused on a second POMDP (other reward range / discount) behaves like a fresh one"""
+    from msdm.algorithms.pointbasedvalueiteration import PointBasedValueIteration
+    from msdm.algorithms.qmdp import QMDP
+    from msdm.algorithms.valueiteration import ValueIteration
+    from msdm.core.pomdp.tabularpomdp import Belief
+    from vpm.checks.reuse import check_reuse
+    pa, _ = build_pomdp(case["a"])
+    pb, _ = build_pomdp(case["b"])
+    for p in (pa, pb):
+        sar = p.state_action_reward_matrix
+        if case["algo"] == "pbvi" and case["horizon"] is None and float(sar.max() - sar.min()) <= case["eps"]:
+            raise Rejected("derived horizon undefined")
+    if case["algo"] == "pbvi":
+        make = lambda: PointBasedValueIteration(min_belief_expansions=1, max_belief_expansions=3,
+                                                value_convergence_epsilon=case["eps"], horizon=case["horizon"])
+    else:
+        make = lambda: QMDP(mdp_solver=ValueIteration(max_residual=1e-8))
+
+    def summarize(r, p):
+        b0 = Belief(tuple(p.state_list), tuple(float(x) for x in p.initial_state_vec))
+        return {"v0": r.policy.value(b0), "q0": {a: r.policy.action_value(b0, a) for a in p.action_list},
+                "alpha": getattr(r, "alpha_vectors", None)}
+    check_reuse(ctx, "C08.reuse", make, lambda pl, m: pl.plan_on(m), summarize, pa, pb)
+    ctx.nontrivial(case["a"] != case["b"])
+
+
 PROPS = [
-    Prop("backup", lambda tier: cases(tier), prop_backup, quick=1200, thorough=20000,
+    Prop("reuse", lambda tier: reuse_cases(tier), prop_reuse, quick=200, thorough=12000,
+         doc="a PBVI / QMDP planner object reused on a second POMDP gives the same result as a fresh one"),
+    Prop("backup", lambda tier: cases(tier), prop_backup, quick=1200, thorough=60000,
          doc="point_based_value_iteration on a reference-built belief set: alpha values vs exact k-step optimum"),
-    Prop("planner", lambda tier: cases(tier), prop_planner, quick=700, thorough=12000,
+    Prop("planner", lambda tier: cases(tier), prop_planner, quick=700, thorough=36000,
          doc="PointBasedValueIteration and QMDP planners: value bounds, own-action-value greediness, QMDP action values"),
 ]
